@@ -31,12 +31,6 @@ G   == case.g
 Cfg == case.cfg
 StartLen == Len(Cfg.start)
 
-\* children of a node as <<segment, child>> pairs in the node's own iteration order
-Children(n) ==
-  IF n.k = "map" THEN [i \in DOMAIN n.vs |-> <<n.ks[i], n.vs[i]>>]
-  ELSE IF n.k = "list" THEN [i \in DOMAIN n.vs |-> <<IdxSeg(i - 1), n.vs[i]>>]
-  ELSE <<>>
-
 \* LookupBySegment: <<child>> or <<>> when the lookup fails
 Lookup(n, seg) ==
   IF n.k = "map" THEN
